@@ -38,6 +38,7 @@ type Program struct {
 	allFuncs  []*ssa.Function // all pint functions incl. anonymous and methods
 	funcByKey map[string]*ssa.Function
 	modCache  map[*ssa.Function][]string
+	isolated  map[*ssa.Function]bool
 	freshCache map[*ssa.Function][]string
 	directCache map[*ssa.Function]*directInfo
 	externals map[string]int
@@ -58,7 +59,7 @@ func loadProgram(repo string, patterns []string, overlay map[string][]byte) (*Pr
 		return nil, err
 	}
 	p := &Program{repo: repo, pkgs: pkgs, ssaPkgs: map[string]*ssa.Package{}, byName: map[string]*ssa.Package{}, ss: newSorts(), heapSorts: map[string]string{}, heapElemType: map[string]types.Type{},
-		funcByKey: map[string]*ssa.Function{}, modCache: map[*ssa.Function][]string{}, freshCache: map[*ssa.Function][]string{}, directCache: map[*ssa.Function]*directInfo{}, externals: map[string]int{}, addrTaken: map[*ssa.Function]bool{}}
+		funcByKey: map[string]*ssa.Function{}, modCache: map[*ssa.Function][]string{}, isolated: map[*ssa.Function]bool{}, freshCache: map[*ssa.Function][]string{}, directCache: map[*ssa.Function]*directInfo{}, externals: map[string]int{}, addrTaken: map[*ssa.Function]bool{}}
 	packages.Visit(pkgs, nil, func(pk *packages.Package) {
 		if strings.HasPrefix(pk.PkgPath, pintPath) {
 			for _, e := range pk.Errors {
